@@ -320,68 +320,104 @@ packet falsey {
     @lengthOf(asx)
     falsey,
 }// packet A { u8 x, }")).
-Eval vm_compute in ("<<<M176>>>" ++ check (runes_of_ascii "
-packet i8i8 { @tag( 0 ) int32
-leftPad `it's`
-, repeat char[]Header`crlf
-line`
-, @calculatedFrom( ""\" ++ [233]%N ++ runes_of_ascii """ )/// triple
-repeat
-    uint8 float , @rightPad
-('\x00' ) char[] zchar@lengthOf(
-// a // b
-//x
-leftPad )
-`
-` , Z9_ ,
-@lengthOf(
-x ) match As as
-    tag {	""a	b""  :
-string_ [
-10 , 7 , ""1"" , 255
+Eval vm_compute in ("<<<M1309>>>" ++ check (runes_of_ascii "// top
+packet // c0a
+  // c0b
+A { // c2
+u8 // c3a
+  // c3b
+a , // c5
+} // c6a
+  // c6b
+packet // c7a
+  // c7b
+B {
+    // c9
+u16 b // c11
+, } // c13a
+  // c13b
+packet // c14
+C
+    // c15
+{
+    // c16
+u32
+    // c17
+c // c18
+, // c19a
+  // c19b
+}
+    // c20
+root packet // c22a
+  // c22b
+M // c23
+{ u16 Kc
+    // c26
 ,
-3
-    , 42 ,
-    //
-    0123456789, """ ++ [128512]%N ++ runes_of_ascii """ ] :x_y_z ,""CRC32""
-: Z9_  , 00
-    // c
-    : Logon
-    ,
-} , @tag(007) o {
-    char
-    Packet
-@lengthOf(
-    //	t
-    repeatCount
-) , } , @lengthOf(
-// " ++ [27880; 37322]%N ++ runes_of_ascii "
-/// triple
-pack
-) float64 rootA `two words`
-    ,	repeat char[] BodyLength ,}
-packet Z9_{ match
-    // packet A { u8 x, }
-    As
-as
-    a1{ //
-0: trueish // `tick` ""quote"" 'q'
-,} ,
-/// triple
-// " ++ [27880; 37322]%N ++ runes_of_ascii "
-} root packet u8x {
-/// triple
-// " ++ [128512]%N ++ runes_of_ascii " emoji
-repeat
-string Logon `tab	here` , // " ++ [128512]%N ++ runes_of_ascii " emoji
-}	options { _x
-=
-    ""packet""
-;f32a =007 } packet i8i8 {@calculatedFrom( ""CRC32"" )
-A @lengthOf(
-a1
-)
-, } 	 ")).
+    // c27
+u16 // c28a
+  // c28b
+Kb , // c30
+u16 Ka
+    // c32
+, match // c34a
+  // c34b
+Kc // c35
+as X
+    // c37
+{
+    // c38
+9 // c39
+:
+    // c40
+A
+    // c41
+, 10 :
+    // c44
+B
+    // c45
+,
+    // c46
+} , match
+    // c49
+Kb // c50
+as // c51a
+  // c51b
+Y // c52
+{ 2 // c54a
+  // c54b
+:
+    // c55
+C , // c57
+1 // c58
+: A , // c61a
+  // c61b
+} // c62
+, // c63a
+  // c63b
+match
+    // c64
+Ka as // c66
+Z // c67
+{
+    // c68
+1 // c69a
+  // c69b
+: B // c71a
+  // c71b
+, // c72
+} // c73a
+  // c73b
+, // c74
+A // c75a
+  // c75b
+, // c76
+B
+    // c77
+,
+    // c78
+C , // c80
+} ")).
 Eval vm_compute in ("<<<M168>>>" ++ check (runes_of_ascii "options
 //x
 // @lengthOf(
@@ -661,64 +697,47 @@ float
 true
 
 ; }")).
-Eval vm_compute in ("<<<M1937>>>" ++ check (runes_of_ascii "
-packet 
-rootA 
-{@tag(
-    0123456789 
-)
-	options1
-
-    {	int32
-
-uint8x
-    `u8 x,`
-    ,
-u8x
-	//x
-// packet A { u8 x, }
-      {  match 
-Header
-
-as
-    metadata
-    { [
-10
-
-] 
-:	pack} ,	}  ,
-    f64	// `tick` ""quote"" 'q'
-	chars
-
-, 
-} ,
-	@lengthOf(
-    body )u64 
-        // @lengthOf(
-    //
-	Z9_  ,} 
-MetaData
-
-    repeatCount
-{
-zchar[10 ]
-
-string_ ,
-	f64
-
-A	,
-u32  BodyLength
-
-    ,zchar[
-
-    00
-    ]
-	uint8x
-,trueish leftPad
-	, char[65535]rootA
-, }  
-      //	t
- 
+Eval vm_compute in ("<<<M1237>>>" ++ check (runes_of_ascii "// top
+options // c0
+{ // c1
+zchar // c2
+= // c3
+true // c4
+; // c5
+Pad // c6
+= // c7
+char[ // c8
+00 // c9
+] // c10
+a1 // c11
+= // c12
+uint32 // c13
+BodyLength // c14
+= // c15
+true // c16
+; // c17
+} // c18
+root // c19
+packet // c20
+T // c21
+{ // c22
+@lengthOf( // c23
+repeatCount // c24
+) // c25
+@tag( // c26
+1 // c27
+) // c28
+@calculatedFrom( // c29
+""a	b"" // c30
+) // c31
+string // c32
+stringy // c33
+@calculatedFrom( // c34
+""\n"" // c35
+) // c36
+`u8 x,` // c37
+, // c38
+} // c39
 ")).
 Eval vm_compute in ("<<<M1363>>>" ++ check (runes_of_ascii "options {
     LittleEndian = true;
@@ -811,27 +830,17 @@ Heartbeat ,
 }
 
 ")).
-Eval vm_compute in ("<<<M1437>>>" ++ check (runes_of_ascii "MetaData T {
-    uint8 float,
-    repeatCount x,
-    char[10] asx,
-    char[00] metadata `" ++ [233]%N ++ runes_of_ascii "`,
-    u8x asx,
+Eval vm_compute in ("<<<M1491>>>" ++ check (runes_of_ascii "packet tag {
 }
 
-MetaData trueish {
-    charz string_ `crlf
-        line`,
-    zchar[42] _x,
-}
-
-packet o {
-    char[] u8x @calculatedFrom(""abc""),
-}
-
-options {
-    x = 255;
-    u = '0'
+packet falsey {
+    string charz @lengthOf(zchar),
+    string u @calculatedFrom(""" ++ [233]%N ++ runes_of_ascii "t" ++ [233]%N ++ runes_of_ascii """) `// not a comment`,
+    @leftPad('0')
+    char[] leftPad @calculatedFrom(""a	b"") `// not a comment`,
+    @calculatedFrom(""`tick`"")
+    @lengthOf(roots)
+    repeat MetaDataX,
 }")).
 Eval vm_compute in ("<<<M1375>>>" ++ check (runes_of_ascii "packet
     Sub 
